@@ -432,7 +432,16 @@ def check_sim(case, ctx):
 def proc_case(draw):
     c = draw(trunc_case("proc"))
     c["offsets"] = draw(st.lists(st.floats(0.02, 1.0), min_size=4, max_size=4))
+    c["dest"] = draw(st.sampled_from(["file", "stdout"]))
     return c
+
+
+BOILERPLATE = ("This is cutadapt", "Command line parameters:", "Processing ", "Building index", "Built an index")
+
+
+def error_text(stderr):
+    """What a user sees on stderr besides the start-up lines (which go there when the reads go to stdout)."""
+    return [ln for ln in stderr.splitlines() if ln.strip() and not ln.startswith(BOILERPLATE)]
 
 
 def check_proc(case, ctx):
@@ -450,7 +459,7 @@ def check_proc(case, ctx):
         else:
             okz, plain = gunzip_oracle(cut)
             ok, info = oracle_records(plain) if okz else (False, plain)
-        args = ["-a", ADAPTER, "-o", "out.fastq", name]
+        args = ["-a", ADAPTER] + (["-o", "out.fastq"] if case.get("dest", "file") == "file" else []) + [name]
         if case["cores"] > 1:
             args = ["-j", str(case["cores"]), "--buffer-size", str(buffer)] + args
         r = cli.run_subprocess(args, {name: cut}, timeout=120)
@@ -464,10 +473,11 @@ def check_proc(case, ctx):
             if r.exit == 0:
                 raise Violation(f"truncation at byte {off}: malformed input ({info}) but process exit status 0 ({args})",
                                 tag="silent")
-            if not r.stderr.strip():
-                raise Violation(f"truncation at byte {off}: exit status {r.exit} but nothing on stderr ({args})",
-                                tag="no-message")
+            if not error_text(r.stderr):
+                raise Violation(f"truncation at byte {off}: exit status {r.exit} but no error message on stderr "
+                                f"({args})", observed=r.stderr[-400:], tag="no-message")
         ctx.label("malformed" if not ok else "wellformed")
+        ctx.label("reads-to:" + case.get("dest", "file"))
     ctx.evaluations += n - 1
     ctx.label(f"cores:{case['cores']}")
     ctx.nontrivial_case({"container": cont, "cores": case["cores"], "runs": n})
